@@ -212,6 +212,28 @@ def run_case(case, obs):
         t = track.Track(name="verif", challenges=[track.Challenge(f"c{i}", default=i == 0, schedule=s) for i, s in enumerate(schedules)])
         loader.TaskFilterTrackProcessor(cfg).on_after_load_track(t)
     obs.check(len(t.challenges) == len(specs), "selection/challenges", f"{len(t.challenges)} challenges left of {len(specs)}")
+    # the driver can still pick every challenge by its name, also one that the filter has left without any task (it then runs nothing)
+    from esrally import config as _config  # pylint: disable=import-outside-toplevel
+    from esrally.driver import driver as _driver  # pylint: disable=import-outside-toplevel
+
+    for ch in t.challenges:
+        sel = _config.Config()
+        sel.add(_config.Scope.applicationOverride, "track", "challenge.name", ch.name)
+        try:
+            picked = _driver.select_challenge(sel, t)
+        except Exception as e:  # pylint: disable=broad-except
+            picked = f"{type(e).__name__}: {str(e)[:120]}"
+        obs.check(picked is ch, "runnable/challenge-cannot-be-selected", lambda: f"challenge {ch.name} ({len(ch.schedule)} elements left): select_challenge gives {picked!r}")
+        was = ch.selected
+        ch.selected = True  # what track loading does for the configured challenge
+        try:
+            got = t.selected_challenge_or_default
+            obs.check(got is ch or any(c.selected and c is not ch for c in t.challenges), "runnable/selected-challenge-replaced-by-default",
+                      lambda: f"challenge {ch.name} ({len(ch.schedule)} elements left) is selected but selected_challenge_or_default gives {got.name}")
+        finally:
+            ch.selected = was
+        if not ch.schedule:
+            obs.cls("challenge-left-without-tasks")
 
     removed_total = kept_total = removed_in_parallel = 0
     for ci, (challenge, m, snap, cap) in enumerate(zip(t.challenges, models, snaps, caps)):
